@@ -10,7 +10,13 @@
  * A sanitizer abort turns the rest of the history into `CRASH exit=1`, an abort() into `CRASH signal=6`
  * (hcommon.h).
  *
- * Event handlers are interpreters of behaviour tables given on the `bind` line (DESIGN §3 "Callbacks").
+ * Event handlers are interpreters of behaviour tables given on the `bind` line (DESIGN §3 "Callbacks"); so are the
+ * handlers bound on the terminal (`tbind`) and the watches of the toplevel instance (`ilater`, `itimer`, `itimerat`), which
+ * may also register further timers (a<ms>: tickit_watch_timer_at_tv for an instant of the harness's clock) and deferred
+ * calls (l) while they run.
+ *
+ * The output side of the main terminal goes through the real xterm driver: its output function records every chunk of the
+ * current operation, and tbuf / tprint / tgoto / tflush / tcaps / tsetpen / tchpen answer `ok out=<hex>,<hex>… [pen=…]`.
  */
 #define HCOMMON_MAIN
 #include "hcommon.h"
